@@ -290,3 +290,36 @@ def check_incomplete_frame(ctx, eng):
            not bad, '; '.join(sorted(set(bad))) or 'the %d incomplete-frame '
            'branches can only raise StopIteration' % len(guards),
            node=fi.node)
+
+
+def check_block_continuity(ctx, eng):
+    """While a header block is open (a HEADERS / PUSH_PROMISE without
+    END_HEADERS was buffered) the only frame that may follow is a
+    CONTINUATION on the same stream: every path of _update_header_buffer that
+    accepts a frame with the buffer non-empty has established both facts;
+    anything else is a connection error (RFC 7540 6.10).  Shared by C06 and
+    C07."""
+    fi = eng.m.func(FB + '_update_header_buffer')
+    bad = []
+    n = 0
+    for p in cm.normal_paths(eng.I.run(fi)):
+        shows = [cm.show0(e.cond) for e in p.events if e.kind == 'assume']
+        if 'self._headers_buffer' not in shows:
+            continue
+        n += 1
+        is_cont = any(s.startswith('isinstance(f, ContinuationFrame')
+                      for s in shows)
+        same = any(s in ('(f.stream_id == self._headers_buffer[0].stream_id)',
+                         '(self._headers_buffer[0].stream_id == f.stream_id)')
+                   for s in shows)
+        if not is_cont:
+            bad.append('a frame that is not a CONTINUATION is accepted '
+                       'inside a header block')
+        if not same:
+            bad.append('a CONTINUATION on another stream is merged into the '
+                       'open header block')
+    ctx.ob('PAIR.block-continuity', fi.qual, 'an open header block admits '
+           'only its own CONTINUATIONs', n > 0 and not bad,
+           '; '.join(sorted(set(bad))) or 'ContinuationFrame and the stream '
+           'id of the leading frame are both required on all %d accepting '
+           'paths' % n, node=fi.node)
